@@ -35,6 +35,10 @@ type StoreWorld struct {
 	opCount   map[string]int // counts inside the current write transaction (for the dry run)
 	lastTxOps map[string]int
 	OnKill    func(reason string) // called in the dying task right before it is frozen
+	// history hooks (C09): called in the writing task with the write lock held /
+	// right after the storage commit succeeded, before any other task can run
+	OnWriteLocked func()
+	OnCommitted   func()
 	Node      string
 	Stats     map[string]int
 	MmapNote  bool
@@ -203,6 +207,9 @@ func (p *ProxyStore) Write(f func(diskstore.BucketManager) error) (err error) {
 	p.begin()
 	defer p.end()
 	w := p.w
+	if w.OnWriteLocked != nil {
+		w.OnWriteLocked()
+	}
 	tx := &txState{p: p, writable: true, ops: map[string]int{}}
 	w.mu.Lock()
 	armed := w.armed
@@ -271,6 +278,9 @@ func (p *ProxyStore) Write(f func(diskstore.BucketManager) error) (err error) {
 		sim.Count("fault:" + armed.Kind)
 	}
 	if err == nil {
+		if w.OnCommitted != nil {
+			w.OnCommitted()
+		}
 		sim.Count("store:commit")
 		if a := tx.armedFor("kill-post-commit"); a != nil {
 			w.kill("kill-post-commit")
